@@ -109,7 +109,8 @@ def decSettings : Dec Settings := do
          inferSubcommands := f 3, allowExternalSubcommands := f 4, ignoreErrors := f 5, argsOverrideSelf := f 6,
          dontDelimitTrailingValues := f 7, allowMissingPositional := f 8, subcommandRequired := f 9,
          argRequiredElseHelp := f 10, subcommandNegatesReqs := f 11, disableHelpFlag := f 12,
-         disableVersionFlag := f 13, disableHelpSubcommand := f 14, noBinaryName := f 15, hasVersion := f 16 }
+         disableVersionFlag := f 13, disableHelpSubcommand := f 14, noBinaryName := f 15, hasVersion := f 16,
+         allowHyphenValues := f 17, allowNegativeNumbers := f 18 }
 
 def decCmd : Nat → Dec Cmd
   | 0 => failure
